@@ -39,6 +39,7 @@ func exists(lo, hi int, p func(int) bool) bool {
 func ncalls(f any) int     { return 0 }
 func lastret(f any) error  { return nil }
 func rangeIndex(n int) int { return 0 }
+func lastcb() error        { return nil }
 
 //@ func Package.PackageName
 //@   props C22
@@ -77,6 +78,22 @@ func rangeIndex(n int) int { return 0 }
 //@   ensures result != nil ==> exists(0, len(packages), func(j int) bool { return packages[j].Lookup(name) == result && forall(0, j, func(i int) bool { return packages[i].Lookup(name) == nil }) })
 //@   loop 0
 //@     invariant forall(0, rangeIndex(0), func(j int) bool { return packages[j].Lookup(name) == nil })
+
+// CombinedPackage.LookupFunc: the callback's first error ends the whole lookup
+// (f is never called after it returned an error, whichever package is being
+// visited) and is the result, except that StopLookup becomes nil. Each inner
+// package is an iterator that calls w until w returns an error (documented
+// contract of ImportablePackage.LookupFunc); lastcb() is w's latest result.
+//@ func CombinedPackage.LookupFunc
+//@   props C22
+//@   opt stopatfirsterror f
+//@   ensures lastret(f) != nil && lastret(f) != StopLookup ==> result == lastret(f)
+//@   ensures lastret(f) == StopLookup ==> result == nil
+//@   ensures lastret(f) == nil ==> result == nil
+//@   loop 0
+//@     invariant err == nil && lastret(f) == nil
+//@   iter LookupFunc
+//@     invariant err == lastret(f) && lastcb() == err
 
 // Import: the first package or error produced by the importers, in order.
 //@ func CombinedImporter.Import
